@@ -1,4 +1,4 @@
 SPECIFICATION Spec
-CONSTANTS NT = 4 NI = 2 NK = 2 NC = 1 Bug = "none"
+CONSTANTS NT = 4 NI = 2 NK = 1 NC = 1 Bug = "none"
 INVARIANTS InvMutex InvUse InvFilledOnce InvFlagLast InvRules InvCache InvOneInsert InvNothingLost InvIO InvItems InvResult InvThisCallOnly InvLocksFree InvWhole InvGuard
 CHECK_DEADLOCK TRUE
